@@ -156,6 +156,8 @@ pub enum Act {
     Local { r: usize, op: Op },
     /// deliver to `dst` everything `src` knows and `dst` does not, in emission order
     Sync { dst: usize, src: usize },
+    /// deliver the single pool update `i` to `dst`, whatever it depends on (creates gaps)
+    Deliver { dst: usize, i: usize },
 }
 
 pub struct World {
@@ -214,13 +216,23 @@ impl World {
                 }
                 Ok(())
             }
-            Act::Sync { dst, src } => {
-                let todo: Vec<usize> = self.reps[*src]
-                    .known
-                    .difference(&self.reps[*dst].known)
-                    .copied()
-                    .collect();
+            Act::Sync { .. } | Act::Deliver { .. } => {
+                let (dst, todo): (&usize, Vec<usize>) = match a {
+                    Act::Sync { dst, src } => (
+                        dst,
+                        self.reps[*src]
+                            .known
+                            .difference(&self.reps[*dst].known)
+                            .copied()
+                            .collect(),
+                    ),
+                    Act::Deliver { dst, i } => (dst, vec![*i]),
+                    _ => unreachable!(),
+                };
                 for i in todo {
+                    if i >= self.pool.len() {
+                        return Err(format!("no pool update {}", i));
+                    }
                     let evs = self.reps[*dst].apply_capture(&self.pool[i].v1, false)?;
                     self.reps[*dst].known.insert(i);
                     // a replica may delete redundant formatting marks while applying: those
@@ -306,6 +318,8 @@ pub struct HistCfg {
     pub depth: usize,
     /// allow Sync actions
     pub syncs: bool,
+    /// max number of out-of-order single-update deliveries (Act::Deliver) per history
+    pub partial: usize,
 }
 
 /// Depth-first enumeration of all histories (Local/Sync sequences with `depth` local ops),
@@ -324,10 +338,20 @@ pub fn explore_histories(
     dfs(ctx, h, &mut trace, 0, &mut visited, first_level, &mut idx, visit);
 }
 
-fn enabled(h: &HistCfg, w: &World, nlocal: usize, last_sync: bool) -> Vec<Act> {
+fn enabled(h: &HistCfg, w: &World, nlocal: usize, last_sync: bool, nparts: usize) -> Vec<Act> {
     let mut out = Vec::new();
     if nlocal >= h.depth {
-        // final syncs are not needed: delivery is explored by the lattice
+        // final syncs are not needed: delivery is explored by the lattice; with partial
+        // deliveries enabled the gapped end states matter, so allow them after the last op
+        if nparts < h.partial {
+            for dst in 0..w.reps.len() {
+                for i in 0..w.pool.len() {
+                    if !w.reps[dst].known.contains(&i) && !w.pool[i].preds.is_subset(&w.reps[dst].known) {
+                        out.push(Act::Deliver { dst, i });
+                    }
+                }
+            }
+        }
         return out;
     }
     if h.syncs && !last_sync || h.syncs {
@@ -335,6 +359,19 @@ fn enabled(h: &HistCfg, w: &World, nlocal: usize, last_sync: bool) -> Vec<Act> {
             for src in 0..w.reps.len() {
                 if dst != src && !w.reps[src].known.is_subset(&w.reps[dst].known) {
                     out.push(Act::Sync { dst, src });
+                }
+            }
+        }
+    }
+    if nparts < h.partial {
+        for dst in 0..w.reps.len() {
+            for i in 0..w.pool.len() {
+                if !w.reps[dst].known.contains(&i) {
+                    // a Deliver that a Sync would also do first is redundant: require a gap
+                    let closed = w.pool[i].preds.is_subset(&w.reps[dst].known);
+                    if !closed {
+                        out.push(Act::Deliver { dst, i });
+                    }
                 }
             }
         }
@@ -384,7 +421,7 @@ fn dfs(
         None => return,
     };
     let key = w.key();
-    let remaining = h.depth - nlocal;
+    let remaining = (h.depth - nlocal) * 8 + (h.partial - trace.iter().filter(|a| matches!(a, Act::Deliver { .. })).count().min(h.partial));
     match visited.get(&key) {
         Some(&r) if r >= remaining => {
             ctx.count("pruned_revisits", 1);
@@ -399,7 +436,8 @@ fn dfs(
         visit(ctx, &w, trace);
     }
     let last_sync = matches!(trace.last(), Some(Act::Sync { .. }));
-    let acts = enabled(h, &w, nlocal, last_sync);
+    let nparts = trace.iter().filter(|a| matches!(a, Act::Deliver { .. })).count();
+    let acts = enabled(h, &w, nlocal, last_sync, nparts);
     drop(w);
     for a in acts {
         if trace.is_empty() {
